@@ -199,11 +199,11 @@ def ctrOf (k : Kind) (sc : Array Float) : V3 Float :=
 /-- (Vpoly, Vanalytic, relative deficit bound) -/
 def volumeSpec (k : Kind) (sc : Array Float) : Option (Float × Float × Float) :=
   match k with
-  | .sphere r c | .sphereu r c => some (sphereVpoly (sc.getD 0 nan) r c, sphereVana (sc.getD 0 nan), uvBound 10.0 r c)
-  | .hemi r c => some (hemiVpoly (sc.getD 0 nan) r c, hemiVana (sc.getD 0 nan), uvBound 10.0 r c)
+  | .sphere r c | .sphereu r c => some (sphereVpoly (sc.getD 0 nan) r c, sphereVana (sc.getD 0 nan), sphereDeficitBound r c)
+  | .hemi r c => some (hemiVpoly (sc.getD 0 nan) r c, hemiVana (sc.getD 0 nan), hemiDeficitBound r c)
   | .cyl s false false =>
       some (cylVpoly (sc.getD 0 nan) (sc.getD 1 nan) s, cylVana (sc.getD 0 nan) (sc.getD 1 nan),
-            7.0 / (Float.ofNat s * Float.ofNat s))
+            cylDeficitBound s)
   | .cyl .. => none
   | .cubew | .cubeq =>
       let v := sc.getD 0 nan * sc.getD 1 nan * sc.getD 2 nan
